@@ -279,3 +279,11 @@ func Kind(w Sys, p string) string {
 	}
 	return "file"
 }
+
+// EvalSymlinks in the implementation and the model ("too many links" = ELOOP).
+func (s ImplSys) EvalSymlinks(p string) (string, int) {
+	r, err := s.V.EvalSymlinks(p)
+	return r, hx.Code(err)
+}
+
+func (s ModelSys) EvalSymlinks(p string) (string, int) { return s.F.EvalSymlinks(p) }
